@@ -205,8 +205,23 @@ def load_prop(prop):
 # worker entry
 # ----------------------------------------------------------------------
 
+def private_tmp():
+    """RamStorage.temp_storage() and several writers use <tempdir>/<indexname>.tmp, a path shared by
+    every process on the machine; with replayable (seeded) random file names concurrent workers would
+    collide there. Give each worker process its own temp root (removed at exit)."""
+    import atexit
+    import shutil
+    import tempfile
+    d = tempfile.mkdtemp(prefix="vf-w%d-" % os.getpid())
+    tempfile.tempdir = d
+    os.environ["TMPDIR"] = d
+    atexit.register(shutil.rmtree, d, True)
+    return d
+
+
 def run_worker(args):
     bootstrap()
+    private_tmp()
     mod = load_prop(args.prop)
     budget = float(os.environ.get("VERIF_BUDGET_S", getattr(mod, "BUDGET_S", {}).get(args.tier, 120)))
     ctx = Ctx(args.prop, args.tier, args.seed, args.shard, args.nshards, budget, args.replay_idx)
